@@ -1113,6 +1113,24 @@ fn copy_prop_reverse(
 ) -> Result<bool, IrError> {
     let mut modified = false;
 
+    // The maps of loads and stores below only see accesses made through pointers that are
+    // derived from the symbol inside this function. Once the address of a symbol is written
+    // to memory (or turned into an integer) the symbol can be accessed through that copy of
+    // the address, e.g. by a `log` of a slice that points to it, and merging the symbol with
+    // another one is no longer safe.
+    let mut address_taken: FxHashSet<Symbol> = FxHashSet::default();
+    for (_block, instr_val) in function.instruction_iter(context) {
+        let mut add = |val: &Value| {
+            address_taken.extend(get_referred_symbols(context, *val).consume().1);
+        };
+        match &instr_val.get_instruction(context).unwrap().op {
+            InstOp::Store { stored_val, .. } => add(stored_val),
+            InstOp::PtrToInt(ptr, _) => add(ptr),
+            InstOp::InitAggr(init_aggr) => init_aggr.initializers.iter().for_each(add),
+            _ => (),
+        }
+    }
+
     // let's first compute the definitions and uses of every symbol.
     let mut stores_map: FxHashMap<Symbol, Vec<Value>> = FxHashMap::default();
     let mut loads_map: FxHashMap<Symbol, Vec<Value>> = FxHashMap::default();
@@ -1161,6 +1179,10 @@ fn copy_prop_reverse(
         };
 
         if dst_sym.get_type(context) != src_sym.get_type(context) {
+            continue;
+        }
+
+        if address_taken.contains(&dst_sym) || address_taken.contains(&src_sym) {
             continue;
         }
 
